@@ -40,6 +40,7 @@ cdef class TaskScheduler(object):
     cpdef int wait_for(self, async_task.AsyncTask task) except -1
     cdef int _execute(self, async_task.AsyncTask root_task) except -1
 
+    cdef _abandon_task(self, async_task.AsyncTask task)
     cdef _schedule_batch(self, batching.BatchBase batch)
     cdef int _flush_batch(self, batching.BatchBase batch) except -1
 
